@@ -924,8 +924,28 @@ func checkReentrant(c *ReCase) (f *ev.Failure) {
 	if c.Outer > 0 {
 		src2 := "import \"fmt\"\nimport \"host\"\nimport \"golang.org/x/exp/slices\"\nfunc less(a, b int) bool {\n\treturn a < b\n}\n" +
 			"func outer(tag string, xs []int, k int) int {\n\tt := k * 2\n\tslices.SortFunc(xs, less)\n\tr := " + call + "\n\tfmt.Println(tag, xs, k, t)\n\treturn r + t + xs[0]\n}\n"
+		// comparators that sort: a native (the sort) calls the script, which calls the native again with another comparator
+		src2 += "func desc(a, b int) bool {\n\ttmp := []int{a, b, 5}\n\tslices.SortStableFunc(tmp, less)\n\treturn a > b\n}\n" +
+			"func descStable(a, b int) bool {\n\ttmp := []int{b, a}\n\tslices.SortFunc(tmp, less)\n\treturn a > b\n}\n" +
+			"func resort(xs []int, ys []int) {\n\tslices.SortFunc(xs, desc)\n\tslices.SortStableFunc(ys, descStable)\n\tfmt.Println(\"resort\", xs, ys)\n}\n"
 		if r := vm.Eval(nil, src2, goat.DefaultBudget); r.Failed() {
 			return mk("defining outer failed: "+r.ErrString(), src2)
+		}
+		{
+			mkxs := func(vs ...int) goatlang.Value {
+				var l []goatlang.Value
+				for _, v := range vs {
+					l = append(l, goatlang.Int(v))
+				}
+				return goatlang.NewSlice(goatlang.TypeInt32, l)
+			}
+			r := vm.Call("main.resort", 0, goat.DefaultBudget, mkxs(3, 1, 4, 2), mkxs(1, 7, 3, 9, 5))
+			if r.Failed() {
+				return mk("host Call of resort failed: "+r.ErrString(), src2)
+			}
+			if got, want := r.Stdout, "resort [4 3 2 1] [9 7 5 3 1]\n"; got != want {
+				return mk(fmt.Sprintf("sorting with comparators that sort themselves printed %q, expected %q", got, want), src2)
+			}
 		}
 		for n := 0; n < c.Outer; n++ {
 			xs := goatlang.NewSlice(goatlang.TypeInt32, []goatlang.Value{goatlang.Int(3), goatlang.Int(1), goatlang.Int(2)})
